@@ -27,7 +27,7 @@ theorem scatter_of_mem (didx : List Nat) (ddat : List ℝ) (hn : didx.Nodup) (hl
           intro p hp hpa
           have : p.1 ∈ l := (List.of_mem_zip hp).1
           rw [beq_iff_eq] at hpa; rw [hpa] at this; exact hn'.1 this
-        simp [scatter, List.filter_cons, List.filter_eq_nil_iff.mpr this]
+        simp [scatter, List.filter_eq_nil_iff.mpr this]
       | succ k =>
         have hk' : k < l.length := by simpa using hk
         have hne : ¬ (a == l[k]) = true := by
@@ -43,7 +43,7 @@ theorem scatter_of_not_mem (didx : List Nat) (ddat : List ℝ) (i : Nat) (h : i 
     rw [beq_iff_eq] at hpa; rw [hpa] at hm; exact h hm
   simp [scatter, List.filter_eq_nil_iff.mpr this]
 
-/-- the result as a function of the vertex index -/
+/-- the result as a function of the vertex index (the body of `Poisson.fill`) -/
 noncomputable def xfun (dim : Nat) (didx : List Nat) (ddat : List ℝ) (xs : List ℝ) (i : Nat) : ℝ :=
   match didx.idxOf? i with
   | some k => ddat.getD k 0
@@ -53,18 +53,181 @@ noncomputable def xfun (dim : Nat) (didx : List Nat) (ddat : List ℝ) (xs : Lis
 
 theorem fill_eq_xfun (dim : Nat) (didx : List Nat) (ddat xs : List ℝ) (i : Nat) (hi : i < dim) :
     (fill dim didx ddat (freeIdx dim didx) xs).getD i 0 = xfun dim didx ddat xs i := by
-  simp [fill, xfun, hi, List.getD_eq_getElem?_getD]
+  unfold fill xfun
+  rw [List.getD_eq_getElem?_getD, List.getElem?_map, List.getElem?_range hi]
+  rfl
+
+theorem idxOf_getElem (l : List Nat) (hn : l.Nodup) (k : Nat) (hk : k < l.length) : l.idxOf? (l[k]) = some k := by
+  rw [List.idxOf?_eq_some_iff]
+  refine ⟨hk, rfl, ?_⟩
+  intro j hj h
+  have := (List.Nodup.getElem_inj_iff hn (hi := lt_trans hj hk) (hj := hk)).mp h
+  omega
 
 /-- **exactness at Dirichlet vertices**: the result takes exactly the prescribed values -/
 theorem dirichlet_exact (dim : Nat) (didx : List Nat) (ddat xs : List ℝ) (hn : didx.Nodup)
     (k : Nat) (hk : k < didx.length) : xfun dim didx ddat xs (didx[k]) = ddat.getD k 0 := by
-  have : didx.idxOf? (didx[k]) = some k := by
-    rw [List.idxOf?_eq_some_iff]  -- position of the first occurrence; unique since Nodup
-    refine ⟨hk, rfl, ?_⟩
-    intro j hj hjk
-    exact fun h => by
-      have := (List.Nodup.getElem_inj_iff hn (hi := lt_trans hj hk) (hj := hk)).mp h
-      omega
-  simp [xfun, this]
+  simp [xfun, idxOf_getElem didx hn k hk]
+
+theorem freeIdx_nodup (dim : Nat) (didx : List Nat) : (freeIdx dim didx).Nodup :=
+  List.Nodup.filter _ List.nodup_range
+
+theorem mem_freeIdx (dim : Nat) (didx : List Nat) (i : Nat) : i ∈ freeIdx dim didx ↔ i < dim ∧ i ∉ didx := by
+  simp [freeIdx]
+
+/-- at a kept vertex the result is the solver's value -/
+theorem xfun_free (dim : Nat) (didx : List Nat) (ddat xs : List ℝ) (p : Nat) (hp : p < (freeIdx dim didx).length) :
+    xfun dim didx ddat xs ((freeIdx dim didx)[p]) = xs.getD p 0 := by
+  have hmem := (mem_freeIdx dim didx _).mp (List.getElem_mem hp)
+  have h1 : didx.idxOf? ((freeIdx dim didx)[p]) = none := List.idxOf?_eq_none_iff.mpr hmem.2
+  simp [xfun, h1, idxOf_getElem _ (freeIdx_nodup dim didx) p hp]
+
+/-- on `didx` the result coincides with the Dirichlet vector `d = scatter didx ddat` -/
+theorem xfun_dirichlet (dim : Nat) (didx : List Nat) (ddat xs : List ℝ) (hn : didx.Nodup) (hl : ddat.length = didx.length)
+    (j : Nat) (hj : j ∈ didx) : xfun dim didx ddat xs j = scatter didx ddat j := by
+  obtain ⟨k, hk, rfl⟩ := List.getElem_of_mem hj
+  rw [dirichlet_exact dim didx ddat xs hn k hk, scatter_of_mem didx ddat hn hl k hk]
+
+/-- **the equation at the kept vertices.**  If the solver output `xs` satisfies row `p` of the reduced system
+    `reduce A free · xs = b` (the contract of the external sparse solve), then the full result satisfies
+    `(A x)_i = (B (h − n))_i` at the kept vertex `i = free[p]`. -/
+theorem interior_eq (A B : Coo ℝ) (dim : Nat) (h nvec : Nat → ℝ) (didx : List Nat) (ddat xs : List ℝ)
+    (hn : didx.Nodup) (hl : ddat.length = didx.length) (hA : ∀ e ∈ A, e.1.2 < dim)
+    (p : Nat) (hp : p < (freeIdx dim didx).length)
+    (hsolve : Coo.mulVec (reduce A (freeIdx dim didx)) (fun q => xs.getD q 0) p
+        = rhs A B h nvec (scatter didx ddat) true ((freeIdx dim didx)[p])) :
+    Coo.mulVec A (xfun dim didx ddat xs) ((freeIdx dim didx)[p])
+      = Coo.mulVec B (fun j => h j - nvec j) ((freeIdx dim didx)[p]) := by
+  set free := freeIdx dim didx with hfree
+  set i := free[p] with hi
+  have hnd := freeIdx_nodup dim didx
+  -- pointwise decomposition, by induction over the triplets
+  have key : ∀ M : Coo ℝ, (∀ e ∈ M, e.1.2 < dim) →
+      Coo.mulVec M (xfun dim didx ddat xs) i
+        = Coo.mulVec M (scatter didx ddat) i + Coo.mulVec (reduce M free) (fun q => xs.getD q 0) p := by
+    intro M
+    induction M with
+    | nil => intro _; simp [Coo.mulVec, reduce]
+    | cons e M ih =>
+      intro hM
+      have ih' := ih (fun e' he' => hM e' (by simp [he']))
+      have hcol : e.1.2 < dim := hM e (by simp)
+      have hred_cons : reduce (e :: M) free =
+          (match free.idxOf? e.1.1, free.idxOf? e.1.2 with
+            | some a, some b => [((a, b), e.2)]
+            | _, _ => []) ++ reduce M free := by
+        unfold reduce
+        rw [List.filterMap_cons]
+        rcases free.idxOf? e.1.1 with _ | a <;> rcases free.idxOf? e.1.2 with _ | b <;> rfl
+      rw [hred_cons, Coo.mulVec_append]
+      have hsplit : ∀ g : Nat → ℝ, Coo.mulVec (e :: M) g i = (if e.1.1 = i then e.2 * g e.1.2 else 0) + Coo.mulVec M g i := by
+        intro g
+        by_cases h1 : e.1.1 = i <;> simp [Coo.mulVec, List.filter_cons, h1]
+      rw [hsplit, hsplit, ih']
+      by_cases hrow : e.1.1 = i
+      · -- the triplet lies in row i = free[p]
+        have hrowidx : free.idxOf? e.1.1 = some p := by rw [hrow, hi]; exact idxOf_getElem free hnd p hp
+        by_cases hD : e.1.2 ∈ didx
+        · -- Dirichlet column: dropped from the reduced matrix, value taken from d
+          have hnf : free.idxOf? e.1.2 = none :=
+            List.idxOf?_eq_none_iff.mpr (fun hm => ((mem_freeIdx dim didx _).mp hm).2 hD)
+          rw [xfun_dirichlet dim didx ddat xs hn hl _ hD]
+          simp [hrow, hrowidx, hnf, Coo.mulVec]
+          ring
+        · -- kept column
+          have hmem : e.1.2 ∈ free := (mem_freeIdx dim didx _).mpr ⟨hcol, hD⟩
+          obtain ⟨q, hq, hqe⟩ := List.getElem_of_mem hmem
+          have hcolidx : free.idxOf? e.1.2 = some q := by rw [← hqe]; exact idxOf_getElem free hnd q hq
+          have hx : xfun dim didx ddat xs e.1.2 = xs.getD q 0 := by rw [← hqe]; exact xfun_free dim didx ddat xs q hq
+          have hrowidx' : free.idxOf? i = some p := by rw [← hrow]; exact hrowidx
+          rw [hx, scatter_of_not_mem didx ddat _ hD]
+          simp [hrow, hrowidx', hcolidx, Coo.mulVec]
+          ring
+      · -- another row: no contribution on either side
+        have hother : Coo.mulVec (match free.idxOf? e.1.1, free.idxOf? e.1.2 with
+            | some a, some b => [((a, b), e.2)]
+            | _, _ => []) (fun q => xs.getD q 0) p = 0 := by
+          cases hra : free.idxOf? e.1.1 with
+          | none => simp [Coo.mulVec]
+          | some a =>
+            cases hrb : free.idxOf? e.1.2 with
+            | none => simp [Coo.mulVec]
+            | some b =>
+              have hap : a ≠ p := by
+                intro hap
+                obtain ⟨ha, hea, _⟩ := List.idxOf?_eq_some_iff.mp hra
+                apply hrow
+                rw [← hea, hi]
+                subst hap; rfl
+              simp [Coo.mulVec, hap]
+        simp only [if_neg hrow, hother]
+        ring
+  rw [key A hA, hsolve]
+  simp only [rhs, if_true]
+  ring
+
+/-- the right-hand side is linear in `(h, n, d)` -/
+theorem rhs_linear (A B : Coo ℝ) (h h' nv nv' d d' : Nat → ℝ) (c : ℝ) (hasD : Bool) (i : Nat) :
+    rhs A B (fun j => h j + c * h' j) (fun j => nv j + c * nv' j) (fun j => d j + c * d' j) hasD i
+      = rhs A B h nv d hasD i + c * rhs A B h' nv' d' hasD i := by
+  have lin : ∀ (M : Coo ℝ) (f g : Nat → ℝ), Coo.mulVec M (fun j => f j + c * g j) i = Coo.mulVec M f i + c * Coo.mulVec M g i := by
+    intro M f g
+    induction M with
+    | nil => simp [Coo.mulVec]
+    | cons e M ih =>
+      simp only [Coo.mulVec] at ih ⊢
+      by_cases h1 : e.1.1 = i <;> simp [List.filter_cons, h1, ih] <;> ring
+  have e1 : (fun j => (h j + c * h' j) - (nv j + c * nv' j)) = fun j => (h j - nv j) + c * (h' j - nv' j) := by
+    funext j; ring
+  unfold rhs
+  rw [e1, lin B, lin A]
+  cases hasD <;> simp <;> ring
+
+
+theorem mulVec_congr (M : Coo ℝ) (f g : Nat → ℝ) (i dim : Nat) (hM : ∀ e ∈ M, e.1.2 < dim) (hfg : ∀ j < dim, f j = g j) :
+    Coo.mulVec M f i = Coo.mulVec M g i := by
+  induction M with
+  | nil => rfl
+  | cons e M ih =>
+    have ih' := ih (fun e' he' => hM e' (by simp [he']))
+    have he := hfg e.1.2 (hM e (by simp))
+    simp only [Coo.mulVec] at ih' ⊢
+    by_cases h1 : e.1.1 = i <;> simp [List.filter_cons, h1, ih', he]
+
+/-- **`Solver.poisson` with Dirichlet data**, for every external solver that satisfies the reduced system it is handed:
+    the returned vector takes exactly the prescribed values at the Dirichlet vertices and satisfies
+    `(A x)_i = (B (h − n))_i` at every other vertex. -/
+theorem run_spec (solve : Coo ℝ → List ℝ → List ℝ) (A B : Coo ℝ) (dim : Nat) (h : Nat → ℝ)
+    (didx : List Nat) (ddat : List ℝ) (nLen : Nat) (nidx : List Nat) (ndat : List ℝ)
+    (hn : didx.Nodup) (hl : ddat.length = didx.length) (hpos : 0 < didx.length) (hrange : ∀ j ∈ didx, j < dim)
+    (hA : ∀ e ∈ A, e.1.2 < dim) (hchk : checkD 2 didx ddat.length = .ok ∧ checkN nLen nidx.length ndat.length = .ok)
+    (hsolve : ∀ (a : Coo ℝ) (b : List ℝ) (p : Nat), p < b.length →
+        Coo.mulVec a (fun q => (solve a b).getD q 0) p = b.getD p 0) :
+    ∃ out, run solve A B dim h 2 didx ddat nLen nidx ndat = some out ∧
+      (∀ k (hk : k < didx.length), out.getD (didx[k]) 0 = ddat.getD k 0) ∧
+      (∀ i, i < dim → i ∉ didx →
+        Coo.mulVec A (fun j => out.getD j 0) i
+          = Coo.mulVec B (fun j => h j - (if nLen == 0 then (fun _ => (0 : ℝ)) else scatter nidx ndat) j) i) := by
+  set nvec : Nat → ℝ := if nLen == 0 then (fun _ => (0 : ℝ)) else scatter nidx ndat with hnv
+  set free := freeIdx dim didx with hfree
+  set b := free.map (rhs A B h nvec (scatter didx ddat) true) with hb
+  set xs := solve (reduce A free) b with hxs
+  refine ⟨fill dim didx ddat free xs, ?_, ?_, ?_⟩
+  · have hd : decide (didx.length > 0) = true := by simpa using hpos
+    simp [run, system, hchk.1, hchk.2, hpos, hfree, hb, hxs, hnv]
+  · intro k hk
+    rw [fill_eq_xfun dim didx ddat xs _ (hrange _ (List.getElem_mem hk))]
+    exact dirichlet_exact dim didx ddat xs hn k hk
+  · intro i hi hiD
+    have hmem : i ∈ free := (mem_freeIdx dim didx i).mpr ⟨hi, hiD⟩
+    obtain ⟨p, hp, hpe⟩ := List.getElem_of_mem hmem
+    have hcong : Coo.mulVec A (fun j => (fill dim didx ddat free xs).getD j 0) i = Coo.mulVec A (xfun dim didx ddat xs) i :=
+      mulVec_congr A _ _ i dim hA (fun j hj => fill_eq_xfun dim didx ddat xs j hj)
+    rw [hcong, ← hpe]
+    apply interior_eq A B dim h nvec didx ddat xs hn hl hA p hp
+    have hpb : p < b.length := by simpa [hb] using hp
+    have := hsolve (reduce A free) b p hpb
+    rw [this, hb, List.getD_eq_getElem?_getD, List.getElem?_map, List.getElem?_eq_getElem hp]
+    rfl
 
 end LapyVerif.Props.C05
